@@ -727,15 +727,14 @@ def replay(ctx, rp):
 
 MANIFEST = {
     "text": "Lean theorems about an executable model of solve_cnf for every CNF, fuel and set-iteration order (sat_sound, unsat_sound, "
-            "trace_valid, verdict_correct), a verified certificate checker (checkTrace_sound, checkProofs_sound) that is run on every "
+            "trace_valid, proofs_valid, verdict_correct), a verified certificate checker (checkTrace_sound, checkProofs_sound) that is run on every "
             "'unsatisfiable' answer of the real solver, and tseitin_equisat for a model of the Tseitin CNF whose clause groups are the encode_* rules "
             "regenerated from library/sat.json on each run; models tied to prover/sat.py and prover/tseitin.py by differential runs on generated "
             "inputs; verdicts, assignments and traces of the real solver judged by brute force and an independent trace replay. Termination is not "
             "proved (fuel in the model; searched for with time limits on the implementation).",
     "note": "Trusted: Lean kernel, propext/Classical.choice/Quot.sound, the harness generators and the recording of Python set orders, the "
             "sat.json translator. That tseitin.encode's result is a checker-accepted theorem is judged by the real checker on generated formulas "
-            "(not proved); its CNF is compared with the model's. trace_valid is about the model's final clause list; that the proofs alone pass "
-            "checkProofs is checked on the implementation's outputs, not proved for the model.",
+            "(not proved); its CNF is compared with the model's.",
     "design_ref": "DESIGN.md 4/C15",
 }
 FINDINGS = [
